@@ -23,6 +23,9 @@ RULE = (
     "transition = the real API call made while every dask compute raises and every input block is wrapped in a counting tripwire, "
     "followed by one compute. Oracle: zero tripwire hits and zero scheduler invocations during the call; the returned object is lazy "
     "(a dask collection / an xarray object holding one); during the compute every input block is produced at most once per consuming block task; for dask labels "
+    "without expected_groups dict(zip(groups, result)) equals the eager mapping. Further legs: two groupers (categorical / binned / IntervalIndex, each numpy or dask, "
+    "label chunks equal to or different from the array's) and xarray_reduce on DataArrays and Datasets (coordinate, external, two, binned groupers; dim None / name / ...): same oracles, "
+    "computed result == the in-memory call. "
     "without expected_groups dict(zip(groups, result)) equals the eager mapping. Non-trivial = dask labels, or a planner decision (method=None)."
 )
 ASSUMPTIONS = [
